@@ -554,6 +554,10 @@ class Ctx:
         """Record a violation.  `signature` (dict) identifies the failing input class for
         known-findings matching.  Returns True if it is a known finding."""
         sig = signature or {}
+        if kind == "correspondence":
+            # model and implementation disagree on this case, and the implementation oracle (which reports kind
+            # "impl-violation") found nothing wrong with it: the tie is broken, no failing input is known
+            no_input = True
         for kf in self.known:
             if kf.get("property") == self.pid and kf.get("status") == "open" and _sig_match(kf.get("match", {}), sig):
                 if kf["id"] not in [k["id"] for k in self.known_hits]:
